@@ -164,7 +164,9 @@ func VH_C15_Heartbeat(ticks int) {
 }
 
 // partition watcher: a change of the partition count ends the generation.
-func VH_C15_PartitionWatcher() {
+// event: 0 the topic grows, 1 the topic is deleted (UnknownTopicOrPartition = zero partitions), 2 another broker
+// error (the watcher keeps going), 3 the connection to the coordinator is lost
+func VH_C15_PartitionWatcher(event int) {
 	vhConcreteClock(true)
 	co := &vhCoordinator{parts: []Partition{{ID: 0}, {ID: 1}}}
 	g := vhNewGeneration(co)
@@ -173,10 +175,27 @@ func VH_C15_PartitionWatcher() {
 	vhFireNext()
 	vhSettle()
 	vhAssert(!vhChanClosed(g.done), "same-partition-count-keeps-the-generation")
-	co.parts = append(co.parts, Partition{ID: 2})
+	switch event {
+	case 0:
+		co.parts = append(co.parts, Partition{ID: 2})
+	case 1:
+		co.partsErr = UnknownTopicOrPartition
+	case 2:
+		co.partsErr = Error(vhInt16("other_error_code"))
+		vhAssume(vhAll(co.partsErr.(Error) > 0, co.partsErr.(Error) != UnknownTopicOrPartition))
+	case 3:
+		co.partsErr = vhErrCoordinator
+	}
 	vhFireNext()
 	vhSettle()
-	vhAssert(vhChanClosed(g.done), "partition-count-change-ends-the-generation")
+	if event == 2 {
+		vhAssert(!vhChanClosed(g.done), "a-broker-error-other-than-unknown-topic-keeps-the-generation")
+		co.partsErr = nil
+		co.parts = co.parts[:1] // then the topic shrinks: detected at the next tick
+		vhFireNext()
+		vhSettle()
+	}
+	vhAssert(vhChanClosed(g.done), "partition-count-change-or-lost-connection-ends-the-generation")
 	g.close()
 	vhReach("c15-partition-watcher")
 }
